@@ -469,7 +469,21 @@ class Engine(ExprMixin, CallMixin):
         for tgt in node.targets:
             nxt = []
             for s in states:
-                if isinstance(tgt, ast.Subscript):
+                if (isinstance(tgt, ast.Subscript) and isinstance(tgt.slice, ast.Slice) and tgt.slice.lower is None
+                        and tgt.slice.upper is None and tgt.slice.step is None):
+                    # del lst[:] : the same list object, now empty
+                    for o, s1 in self.ev(tgt.value, s):
+                        if is_exc(o):
+                            out.append(('raise', o, s1))
+                            continue
+                        if not (isinstance(o, SRef) and o.cls.kind == 'list'):
+                            raise Unsupported('del x[:] on %r' % (o,))
+                        s2 = s1.copy()
+                        self.hstore(s2, o, 'len', z3.IntVal(0))
+                        if 'cat' in o.cls.fields:
+                            raise Unsupported('del x[:] on a cat-tracked list')
+                        nxt.append(s2)
+                elif isinstance(tgt, ast.Subscript):
                     for vals, s1 in self.ev_seq([tgt.value, tgt.slice], s):
                         if is_exc(vals):
                             out.append(('raise', vals, s1))
